@@ -1,5 +1,5 @@
 \* exhaustive (thorough): all trees of <= 4 nodes; one composite class + components; five grid choices (two spellings of one grid); 2 cells
-CONSTANTS MaxNodes = 4  CompTypes = {"A"}  Grids = {"none", "g1", "g2", "g1b", "ax"}  NCells = 2  MaxLevel = 9
+CONSTANTS MaxNodes = 4  CompTypes = {"A"}  Grids = {"none", "g1", "g1b", "ax", "g0"}  NCells = 2  MaxLevel = 9
 INIT Init
 NEXT Next
 CONSTRAINT Bound
